@@ -74,3 +74,60 @@ impl From<BTreeMap<String, Value>> for Value {
     #[verifier::external_body]
     fn from(map: BTreeMap<String, Value>) -> Value { unimplemented!() }
 }
+
+// ---- `BTreeMap<&'static str, BoxedFunction>` key model and `format!` pieces (unit U3) --------------------
+pub mod ax_fn {
+use super::*;
+#[verifier::external_body]
+pub broadcast proof fn axiom_str_of(s: Seq<char>) ensures #[trigger] str_of(s)@ == s {}
+/// equal views = equal `&str` values
+#[verifier::external_body]
+pub broadcast proof fn axiom_sstr_ext_auto(a: &'static str, b: &'static str)
+    ensures (#[trigger] a@) == (#[trigger] b@) ==> a == b,
+{}
+/// ASSUMED: `&'static str: Ord` is a total order consistent with `==`; a borrowed `&str` compares like the key
+#[verifier::external_body]
+pub broadcast proof fn axiom_sstr_key_model()
+    ensures
+        #[trigger] vstd::std_specs::btree::key_obeys_cmp_spec::<&'static str>(),
+        vstd::std_specs::btree::borrowed_key_ordering_matches::<&'static str, str>(),
+{}
+#[verifier::external_body]
+pub broadcast proof fn axiom_sstr_borrowed_key<V>(m: Map<&'static str, V>, k: &str)
+    ensures #[trigger] vstd::std_specs::btree::contains_borrowed_key(m, k) <==> m.dom().contains(str_of(k@)),
+{}
+#[verifier::external_body]
+pub broadcast proof fn axiom_sstr_borrowed_key_value<V>(m: Map<&'static str, V>, k: &str, v: V)
+    ensures #[trigger] vstd::std_specs::btree::maps_borrowed_key_to_value(m, k, v) <==> (m.dom().contains(str_of(k@)) && m[str_of(k@)] == v),
+{}
+/// `PartialEq for &str` compares the characters
+#[verifier::external_body]
+pub broadcast proof fn axiom_str_ref_eq(a: &&'static str, b: &&'static str)
+    ensures <&'static str as PartialEqSpec>::obeys_eq_spec(), #[trigger] PartialEqSpec::eq_spec(a, b) == ((**a)@ == (**b)@),
+{}
+/// `{x}` on a `&str` writes its characters; `{v:?}` on a `Value` is a function of the value's view (derived Debug)
+#[verifier::external_body]
+pub broadcast proof fn axiom_fmt_display_str(a: &&str) ensures #[trigger] fmt_display::<&str>(a) == (**a)@ {}
+#[verifier::external_body]
+pub broadcast proof fn axiom_fmt_debug_value(a: &Value) ensures #[trigger] fmt_debug::<Value>(a) == debug_val(vv(*a)) {}
+}
+pub use ax_fn::*;
+
+/// R5: what `{}` / `{:?}` write for a value
+pub uninterp spec fn fmt_display<A: ?Sized>(a: &A) -> Seq<char>;
+pub uninterp spec fn fmt_debug<A: ?Sized>(a: &A) -> Seq<char>;
+
+/// `src/expr/keywords.rs::is_valid_identifier` uses `Chars::all` + unicode-xid tables: not under contract (DESIGN 4, C15)
+pub uninterp spec fn is_ident_spec(s: Seq<char>) -> bool;
+#[verifier::external_body]
+pub fn is_valid_identifier(name: &str) -> (r: bool) ensures r == is_ident_spec(name@) { unimplemented!() }
+
+// derived `Default` (ASSUMED: empty collections)
+impl Default for UserFunctions {
+    #[verifier::external_body]
+    fn default() -> (r: Self) ensures r.functions@ == Map::<&'static str, BoxedFunction>::empty() { unimplemented!() }
+}
+impl Default for Symbols {
+    #[verifier::external_body]
+    fn default() -> (r: Self) ensures r.0@ == Map::<String, Value>::empty() { unimplemented!() }
+}
